@@ -227,6 +227,9 @@ def run_item(item):
         gen = splittings(version, kinds, mode, anywhere, nearb)[0][k::n]
     nt = 0
     for cuts in gen:
+        if connlib.too_many_livelocks():
+            part.cap('stopped early: several reads never returned in this worker (reported as C05/livelock)')
+            break
         judge(version, kinds, rev, cuts, part)
         if inside_frame(version, kinds, cuts):
             nt += 1
